@@ -62,3 +62,28 @@ V('C04', 'neg-local-rename', S, F + '_delete',
 V('C04', 'neg-reader-local', S, F + 'add_raw',
   "        name_field = sclass.get_schema_field('name')\n        name = data[name_field.index]",
   "        nf = sclass.get_schema_field('name')\n        name_field = nf\n        name = data[nf.index]", None)
+
+O = 'edb/schema/objects.py'
+V('C04', 'cached-quals-mutated', 'edb/schema/delta.py', 'edb.schema.delta.RenameObject._canonicalize',
+  'quals = list(sn.quals_from_fullname(ref_name))', 'quals = sn.quals_from_fullname(ref_name)', 'C04.R6', 'quals_from_fullname->quals')
+V('C04', 'refresh-reuses-keys', O, 'edb.schema.objects.Object.refresh_classref',
+  'all_coll = colltype.create(schema, coll.objects(schema))', 'all_coll = colltype.create(schema, coll)', 'C04.R6', 'refresh_classref:recomputes-keys')
+V('C04', 'rename-no-refresh', 'edb/schema/referencing.py', 'edb.schema.referencing.RenameReferencedInheritingObject._alter_begin',
+  '            schema = referrer.refresh_classref(schema, refdict.attr)\n', '', 'C04.R6', 'refreshes-referrer')
+V('C04', 'collection-ids-extended-in-place', O, 'edb.schema.objects.ObjectCollection.create',
+  '''        if isinstance(data, ObjectCollection):
+            ids.extend(data._ids)''', '''        if isinstance(data, ObjectCollection):
+            data._ids = tuple(data._ids)
+            ids.extend(data._ids)''', 'C04.R6', 'ObjectCollection.create:data._ids')
+V('C04', 'keys-recomputed-in-place', O, 'edb.schema.objects.ObjectIndexBase.keys',
+  '        if self._keys is None:\n', '        if self._keys is None or schema is not None:\n', 'C04.R6', 'ObjectIndexBase.keys:self._keys')
+V('C04', 'keys-always-rebound', O, 'edb.schema.objects.ObjectIndexBase.keys',
+  '''        if self._keys is None:
+            _k = type(self)._key
+            self._keys = tuple([_k(schema, x) for x in self.objects(schema)])
+''', '''        _k = type(self)._key
+        self._keys = tuple([_k(schema, x) for x in self.objects(schema)])
+''', 'C04.R6', 'ObjectIndexBase.keys:self._keys')
+# negative control: a copy under another spelling
+V('C04', 'neg-copy-by-slice', 'edb/schema/delta.py', 'edb.schema.delta.RenameObject._canonicalize',
+  'quals = list(sn.quals_from_fullname(ref_name))', 'quals = [*sn.quals_from_fullname(ref_name)]', None)
